@@ -303,6 +303,8 @@ pub fn add_capacity_templates(p: &mut Plan, q: bool) {
 
 /// C17 / C10: k minimal header lines of several shapes against capacities around k — the
 /// capacity law for header counts well beyond what the symbol trees reach.
+const HC_LONG: [usize; 14] = [99, 100, 101, 102, 127, 128, 129, 130, 255, 256, 257, 300, 511, 513];
+
 pub fn add_header_count_sweep(p: &mut Plan, q: bool) {
     let kmax: usize = if q { 24 } else { 72 };
     let shapes: [&[u8]; 5] = [b"a:\n", b"a:b\n", b"a: b\r\n", b"ab:\r\n", b"a:\t \n"];
@@ -314,7 +316,7 @@ pub fn add_header_count_sweep(p: &mut Plan, q: bool) {
                 let starts: Vec<&[u8]> = if e.is_req() { vec![b"GET / HTTP/1.1\r\n", b"GET / HTTP/1.1\n"] } else if e.is_resp() { vec![b"HTTP/1.1 200 OK\r\n", b"HTTP/1.1 200\n"] } else { vec![b""] };
                 let _ = si;
                 for start in starts {
-                    for k in 0..=kmax {
+                    for k in (0..=kmax).chain(HC_LONG.iter().copied()) {
                         let mut head = start.to_vec();
                         for _ in 0..k {
                             head.extend_from_slice(shape);
@@ -341,8 +343,8 @@ pub fn add_header_count_sweep(p: &mut Plan, q: bool) {
             }));
         }
     }
-    p.phases.push(Phase { label: format!("S2c: 0..={} minimal header lines × 5 shapes × capacities 0, k-1, k, k+1, 2k+4 × 6 tails × 5 entry points", kmax), backend: Backend::Native, tasks });
-    p.bounds.push(format!("S2c header counts: k = 0..={} lines of shapes a:LF / a:bLF / a: bCRLF / ab:CRLF / a:HTAB SP LF, capacities 0, k-1, k, k+1, 2k+4, tails (CRLF, LF, none, partial name, partial value, invalid line), parse_headers / request / response, initialised and uninit", kmax));
+    p.phases.push(Phase { label: format!("S2c: 0..={} and 99..513 (14 counts) minimal header lines × 5 shapes × capacities 0, k-1, k, k+1, 2k+4 × 6 tails × 5 entry points", kmax), backend: Backend::Native, tasks });
+    p.bounds.push(format!("S2c header counts: k = 0..={} and k in {{99..102,127..130,255..257,300,511,513}} lines of shapes a:LF / a:bLF / a: bCRLF / ab:CRLF / a:HTAB SP LF, capacities 0, k-1, k, k+1, 2k+4, tails (CRLF, LF, none, partial name, partial value, invalid line), parse_headers / request / response, initialised and uninit", kmax));
 }
 
 /// C01 / C19: every template mutant through all ten entry points (also those of the wrong kind).
@@ -551,6 +553,8 @@ pub fn add_pair_sweeps(p: &mut Plan, q: bool, backends: &[Backend], names: &[&st
 
 /// Whitespace runs of every length 0..=40 (four SP/HTAB patterns) at every place of the grammars
 /// where a run may or may not occur: fast paths that skip blanks in blocks depend on the run length.
+const WS_LONG: usize = 300;
+
 pub fn add_whitespace_run_sweep(p: &mut Plan, _q: bool) {
     struct Slot {
         entry: Entry,
@@ -589,7 +593,7 @@ pub fn add_whitespace_run_sweep(p: &mut Plan, _q: bool) {
         tasks.push(Box::new(move |ck: &mut Checker| {
             let lane = Lane::new(sl.entry, sl.cfg, 4);
             let mut buf = Vec::new();
-            for l in 0..=40usize {
+            for l in 0..=WS_LONG {
                 for pat in 0..4 {
                     buf.clear();
                     buf.extend_from_slice(sl.pre);
@@ -605,7 +609,9 @@ pub fn add_whitespace_run_sweep(p: &mut Plan, _q: bool) {
                     one_shot(ck, &lane, &buf);
                     // and every prefix that ends inside or right after the run
                     let end = sl.pre.len() + l;
-                    for k in sl.pre.len()..=end.min(buf.len()) {
+                    // (runs longer than 40: only the cuts near the end of the run)
+                    let from = if l <= 40 { sl.pre.len() } else { end - 2 };
+                    for k in from..=end.min(buf.len()) {
                         one_shot(ck, &lane, &buf[..k]);
                     }
                     if ck.full() {
@@ -615,13 +621,15 @@ pub fn add_whitespace_run_sweep(p: &mut Plan, _q: bool) {
             }
         }));
     }
-    p.phases.push(Phase { label: format!("S2c: whitespace runs of length 0..=40 × 4 SP/HTAB patterns at {} grammar positions (full and cut inside the run)", n), backend: Backend::Native, tasks });
-    p.bounds.push(format!("S2c whitespace runs: length 0..=40, patterns SP* / HTAB* / alternating / HTAB SP*, at {} positions (after the colon, before the line end, before the colon, before the first header, inside folds, request- and status-line delimiters, chunk size, message start), complete and cut inside the run", n));
+    p.phases.push(Phase { label: format!("S2c: whitespace runs of length 0..={} × 4 SP/HTAB patterns at {} grammar positions (full and cut inside the run)", WS_LONG, n), backend: Backend::Native, tasks });
+    p.bounds.push(format!("S2c whitespace runs: length 0..=300 (every cut inside the run up to 40, the last three cuts beyond), patterns SP* / HTAB* / alternating / HTAB SP*, at {} positions (after the colon, before the line end, before the colon, before the first header, inside folds, request- and status-line delimiters, chunk size, message start), complete and cut inside the run", n));
 }
 
 /// Repetition counts: k = 0..=24 repetitions of a unit at the places where the grammars allow a
 /// unit to repeat (leading empty lines, fold continuation lines, ignored lines, header lines of one
 /// shape between two others), complete and cut after every repetition.
+const REP_LONG: [usize; 17] = [31, 32, 33, 47, 63, 64, 65, 66, 100, 127, 128, 129, 130, 255, 256, 257, 300];
+
 pub fn add_repetition_sweep(p: &mut Plan, _q: bool) {
     struct Rep {
         entry: Entry,
@@ -652,9 +660,9 @@ pub fn add_repetition_sweep(p: &mut Plan, _q: bool) {
     let mut tasks: Vec<TaskFn> = Vec::new();
     for r in reps {
         tasks.push(Box::new(move |ck: &mut Checker| {
-            let lane = Lane::new(r.entry, r.cfg, 32);
+            let lane = Lane::new(r.entry, r.cfg, 320);
             let mut buf = Vec::new();
-            for k in 0..=24usize {
+            for k in (0..=24usize).chain(REP_LONG.iter().copied()) {
                 buf.clear();
                 buf.extend_from_slice(r.pre);
                 for _ in 0..k {
@@ -674,8 +682,8 @@ pub fn add_repetition_sweep(p: &mut Plan, _q: bool) {
             }
         }));
     }
-    p.phases.push(Phase { label: format!("S2c: 0..=24 repetitions of a unit at {} places where the grammars repeat (empty lines, folds, ignored lines, header lines), complete and cut", n), backend: Backend::Native, tasks });
-    p.bounds.push(format!("S2c repetitions: k = 0..=24 at {} places (leading empty lines in CRLF / LF / mixed form, fold continuation lines with and without content, ignored lines, repeated header lines, chunk extensions), complete, cut after the k-th repetition and cut inside it", n));
+    p.phases.push(Phase { label: format!("S2c: 0..=24 and 31..300 (17 counts around powers of two) repetitions of a unit at {} places where the grammars repeat (empty lines, folds, ignored lines, header lines), complete and cut", n), backend: Backend::Native, tasks });
+    p.bounds.push(format!("S2c repetitions: k = 0..=24 and k in {{31,32,33,47,63..66,100,127..130,255..257,300}} at {} places (leading empty lines in CRLF / LF / mixed form, fold continuation lines with and without content, ignored lines, repeated header lines, chunk extensions), complete, cut after the k-th repetition and cut inside it", n));
 }
 
 /// UTF-8 in the request target: every sequence of <= 4 bytes over a boundary alphabet of UTF-8
@@ -810,6 +818,163 @@ pub fn add_field_prefix_sweep(p: &mut Plan, q: bool, backends: &[Backend]) {
         p.phases.push(Phase { label: format!("S2b: every prefix of 9 single-field messages, L≤{} × position(step {}) × 6 bytes", lmax, step), backend: b, tasks });
     }
     p.bounds.push(format!("S2b prefixes: 9 fields × run length 0..={} × offending position (step {}) × bytes {{filler, 7F, 00, SP, HTAB, CR}} × every split point inside and after the field, backends {:?}", lmax, step, backends.iter().map(|b| b.name()).collect::<Vec<_>>()));
+}
+
+
+// --------------------------------------------------------------------------------------------
+// S2(b'): long fields — run lengths well beyond any vector stride (128-byte unrolled loops, 64-byte
+// masks), with and without a long remainder of the buffer behind the field.
+// --------------------------------------------------------------------------------------------
+
+const LONG_VALS: [u8; 13] = [0x00, 0x09, 0x0a, 0x0d, 0x1f, 0x20, 0x21, b':', 0x7e, 0x7f, 0x80, 0xff, b'B'];
+const LONG_VALS_T: [u8; 32] = [
+    0x00, 0x01, 0x08, 0x09, 0x0a, 0x0b, 0x0c, 0x0d, 0x0e, 0x1f, 0x20, 0x21, b'"', b'(', b',', b'/', b'0', b':', b';', b'@', b'B', b'[', b'z', b'{', 0x7e, 0x7f, 0x80, 0x9f, 0xa0, 0xc3, 0xf4, 0xff,
+];
+
+fn long_posts(f: &Field) -> Vec<Vec<u8>> {
+    let longv: Vec<u8> = {
+        let mut v = b"Host: example.com\r\nAccept: */*\r\n\r\n".to_vec();
+        v.extend(std::iter::repeat(b'b').take(170));
+        v.extend_from_slice(b"\r\n\r\n");
+        v
+    };
+    let badv: Vec<u8> = {
+        let mut v = b"\x01oops: 1\r\nK: v\r\n\r\n".to_vec();
+        v.extend(std::iter::repeat(b'b').take(170));
+        v
+    };
+    let mut out = vec![f.post.to_vec()];
+    if f.entry == Entry::Chunk {
+        let mut a = f.post.to_vec();
+        a.extend_from_slice(&longv);
+        out.push(a);
+        return out;
+    }
+    // the post without its head-terminating empty line
+    let stem: &[u8] = if f.post.ends_with(b"\r\n\r\n") {
+        &f.post[..f.post.len() - 2]
+    } else if f.post.ends_with(b"\n\n") {
+        &f.post[..f.post.len() - 1]
+    } else {
+        f.post
+    };
+    for v in [&longv, &badv] {
+        let mut a = stem.to_vec();
+        a.extend_from_slice(v);
+        out.push(a);
+    }
+    out
+}
+
+/// One offending byte of a boundary set at every position of a field of every length up to 300
+/// (520), in front of three remainders: the minimal one, 200 more bytes of valid header lines and
+/// body, 200 more bytes that start with an invalid line. Evaluated complete, cut right after the
+/// field, and (when a streaming oracle is armed) along a chain of cuts around the 128/256-byte
+/// marks behind the start of the field and behind the offending byte.
+pub fn add_long_fields(p: &mut Plan, q: bool, backends: &[Backend], names: &[&str]) {
+    let lmax: usize = if q { 300 } else { 520 };
+    let fields: Vec<Field> = FIELDS.iter().filter(|f| f.name != "chunk-digits" && (names.is_empty() || names.contains(&f.name))).cloned().collect();
+    for &b in backends {
+        let mut tasks: Vec<TaskFn> = Vec::new();
+        for f in fields.iter() {
+            for (pi, post) in long_posts(f).into_iter().enumerate() {
+                for band in 0..8usize {
+                    let f = *f;
+                    let post = post.clone();
+                    tasks.push(Box::new(move |ck: &mut Checker| {
+                        let lane = Lane { backend: b, ..Lane::new(f.entry, f.cfg, 8) };
+                        let chain = ck.armed & (crate::oracle::O_STREAM | crate::oracle::O_PARTIAL) != 0;
+                        // (the chains of cuts cost ~20 evaluations per input: fewer offending values)
+                        let vals: &[u8] = match (q, chain) {
+                            (true, false) => &LONG_VALS,
+                            (false, false) => &LONG_VALS_T,
+                            (true, true) => &[0x00, 0x0d, b' ', 0x7f],
+                            (false, true) => &[0x00, 0x09, 0x0a, 0x0d, b' ', b':', 0x7f, 0xff],
+                        };
+                        let lo = if pi == 0 { 71 } else { 0 };
+                        let fs = f.pre.len();
+                        let mut buf: Vec<u8> = Vec::new();
+                        let mut base = Model::for_entry(lane.entry, lane.cfg, lane.cap);
+                        base.feed(f.pre);
+                        for l in (lo..=lmax).filter(|l| l % 8 == band) {
+                            buf.clear();
+                            buf.extend_from_slice(f.pre);
+                            buf.extend(std::iter::repeat(f.fill).take(l));
+                            buf.extend_from_slice(&post);
+                            let mut at_pos = base; // model after pre + fill^pos
+                            for pos in 0..=l {
+                                // pos == l: no offender
+                                let vs: &[u8] = if pos == l { &[0u8][..] } else { vals };
+                                for &v in vs {
+                                    if pos < l {
+                                        if v == f.fill {
+                                            continue;
+                                        }
+                                        buf[fs + pos] = v;
+                                    }
+                                    if !chain {
+                                        let mut m = at_pos;
+                                        m.feed(&buf[fs + pos..fs + l]);
+                                        // cut right after the field
+                                        ck.eval(&lane, &buf[..fs + l], Some(&m), None);
+                                        m.feed(&buf[fs + l..]);
+                                        ck.eval(&lane, &buf, Some(&m), None);
+                                    } else {
+                                        let mut cuts: Vec<usize> = Vec::with_capacity(40);
+                                        let start = if pos < l { fs + pos + 1 } else { fs + l };
+                                        let near: &[usize] = if q { &[0, 1, 8, 16, 32, 64, 128, 129] } else { &[0, 1, 7, 8, 15, 16, 31, 32, 33, 63, 64, 65, 127, 128, 129] };
+                                        for &d in near {
+                                            cuts.push(start + d);
+                                        }
+                                        for d in [127usize, 128, 129, 255, 256, 257] {
+                                            cuts.push(fs + d);
+                                            if !q {
+                                                cuts.push(fs + 1 + d);
+                                            }
+                                        }
+                                        cuts.push(fs + l);
+                                        cuts.push(fs + l + 1);
+                                        cuts.push(buf.len() - 1);
+                                        cuts.push(buf.len());
+                                        cuts.retain(|&c| c >= start && c <= buf.len());
+                                        cuts.sort();
+                                        cuts.dedup();
+                                        let mut m = at_pos;
+                                        let mut fed = fs + pos;
+                                        let mut parent: Option<(Obs, usize)> = None;
+                                        for &c in &cuts {
+                                            m.feed(&buf[fed..c]);
+                                            fed = c;
+                                            let (o, ok) = ck.eval(&lane, &buf[..c], Some(&m), parent.as_ref().map(|(o, k)| (o, *k)));
+                                            if !ok {
+                                                break;
+                                            }
+                                            parent = Some((o, c));
+                                        }
+                                    }
+                                    if ck.full() {
+                                        return;
+                                    }
+                                }
+                                if pos < l {
+                                    buf[fs + pos] = f.fill;
+                                    at_pos.step(f.fill);
+                                }
+                            }
+                        }
+                    }));
+                }
+            }
+        }
+        p.phases.push(Phase { label: format!("S2b': long fields, {} fields × 3 remainders × L≤{} × position × {} boundary bytes", fields.len(), lmax, if q { 13 } else { 32 }), backend: b, tasks });
+    }
+    p.bounds.push(format!(
+        "S2b' long fields: {:?}, run length 71..={lmax} before the minimal remainder and 0..={lmax} before two 200-byte remainders (valid header lines + body; an invalid line first), one byte of a {}-value boundary set at every position (and none), complete and cut after the field{}, backends {:?}",
+        fields.iter().map(|f| f.name).collect::<Vec<_>>(),
+        if q { 13 } else { 32 },
+        " (when a streaming oracle is armed: 4 (8) offending values and a chain of 18 (35) cuts around +128/+256 behind the field start and behind the offender)",
+        backends.iter().map(|b| b.name()).collect::<Vec<_>>()
+    ));
 }
 
 pub fn add_lane_phase(p: &mut Plan, q: bool, backends: &[Backend]) {
